@@ -161,7 +161,7 @@ func (w *failingWriter) Write(p []byte) (int, error) {
 }
 
 func c01(c *wk.Ctx) {
-	c.Note("rule", "streams: rt = random valid header x payload (edge and random lengths) written with Message.Write, compared byte-for-byte with the reference layout, read back with Message.Read under several fragmentation plans (fixed chunk 1..64, random chunks, all-at-once, final chunk delivered with io.EOF) with exact consumption accounting; seq = 1..20 messages back to back under a random fragmentation (once into fresh Message values, once into one reused Message variable) then a final read that must fail; failed-write = 1-4 messages to a healthy stream, half of them preceded by a write to a stream that fails (0 or some bytes accepted, io.EOF / closed pipe / short write / other error): each healthy write puts exactly its own encoding on the wire; bad = invalid headers (magic, version, type, over-limit size) that must be refused with <=28 bytes consumed; big = messages of 1 MiB / limit-1 / limit. A case is non-trivial and distinct by (stream, payload length class, message type, fragmentation plan, verdict class).")
+	c.Note("rule", "streams: rt = random valid header x payload (edge and random lengths) written with Message.Write, compared byte-for-byte with the reference layout, read back with Message.Read under several fragmentation plans (fixed chunk 1..64, random chunks, all-at-once, final chunk delivered with io.EOF) with exact consumption accounting; seq = 1..20 messages back to back under a random fragmentation (once into fresh Message values, once into one reused Message variable) then a final read that must fail; seq-large = 2-5 messages back to back of which one or two carry 64 KiB - 1 MiB (not a multiple of 64 KiB) and are followed by others, the reader being offered everything at once, up to 256 KiB or up to 4 KiB per read; failed-write = 1-4 messages to a healthy stream, half of them preceded by a write to a stream that fails (0 or some bytes accepted, io.EOF / closed pipe / short write / other error): each healthy write puts exactly its own encoding on the wire; bad = invalid headers (magic, version, type, over-limit size) that must be refused with <=28 bytes consumed; big = messages of 1 MiB / limit-1 / limit. A case is non-trivial and distinct by (stream, payload length class, message type, fragmentation plan, verdict class).")
 	plans := []fragPlan{
 		{"all", func(*rand.Rand) func(int) int { return planAll() }, false},
 		{"all+eof", func(*rand.Rand) func(int) int { return planAll() }, true},
@@ -277,6 +277,48 @@ func c01(c *wk.Ctx) {
 		c.Nontrivial(wk.Hash64("seq", n, pl.name, k))
 		if c.WantSample() && i%97 == 0 {
 			c.Sample(map[string]interface{}{"stream": "seq", "messages": n, "total_bytes": len(wire), "plan": pl.name, "fixed_chunk": k})
+		}
+	})
+
+	// seq-large: back-to-back sequences in which one or two messages carry a payload larger than the
+	// sizes at which implementations change strategy (64 KiB, 128 KiB, 256 KiB, 1 MiB; not a multiple
+	// of them) and small messages follow immediately: a reader that is offered the whole stream at once
+	// must still take exactly 28 + size bytes for the large message
+	largeLens := []int{65537, 66000, 70001, 100000, 131071, 131073, 200003, 262145, 300001, 1<<20 + 5}
+	c.Cases("seq-large", c.Pick(90, 2000), func(i int, rng *rand.Rand) {
+		n := 2 + rng.Intn(4)
+		var wire []byte
+		hs := make([]refcodec.Header, n)
+		ps := make([][]byte, n)
+		big := rng.Intn(n - 1) // never the last one: something follows it
+		for k := 0; k < n; k++ {
+			hs[k] = genHeader(rng)
+			if k == big || rng.Intn(6) == 0 {
+				ps[k] = make([]byte, largeLens[rng.Intn(len(largeLens))]+rng.Intn(3))
+				rng.Read(ps[k])
+			} else {
+				ps[k] = genPayload(rng, 3000)
+			}
+			m := toMsg(hs[k], ps[k])
+			var w recWriter
+			if err := m.Write(&w); err != nil {
+				c.Viol("seq-large", i, "write=error", "Message.Write failed: "+err.Error(), nil)
+				return
+			}
+			wire = append(wire, w.buf...)
+		}
+		switch rng.Intn(3) {
+		case 0:
+			readBack("seq-large", i, wire, hs, ps, "all", planAll(), rng.Intn(2) == 0)
+		case 1:
+			readBack("seq-large", i, wire, hs, ps, "rand256k", planRandom(rng, 262144), rng.Intn(2) == 0)
+		default:
+			readBack("seq-large", i, wire, hs, ps, "rand4k", planRandom(rng, 4096), rng.Intn(2) == 0)
+		}
+		c.Count("sequences_with_a_large_message_followed_by_others", 1)
+		c.Nontrivial(wk.Hash64("seq-large", n, len(ps[big])))
+		if c.WantSample() && i%29 == 0 {
+			c.Sample(map[string]interface{}{"stream": "seq-large", "messages": n, "total_bytes": len(wire), "large_payload": len(ps[big])})
 		}
 	})
 
